@@ -394,7 +394,10 @@ impl<'a> Analysis<'a> {
                 // a colliding Connect on the same id is legitimately answered with a Reset on that id
                 let connects_on_id = self.run.events.iter().filter(|e| matches!(&e.ev, Ev::Sent { msg: WMsg::Frame(RFrame::Connect { id: c, .. }), .. } if *c == id)).count();
                 if nobody_dropped && s.accepted_at.is_some() && connects_on_id == 1 {
-                    for st in &self.run.events {
+                    // only Resets after this stream's Connect concern it (an earlier one on the same id answered something else,
+                    // e.g. a rejected bind request that used the id before)
+                    let from = s.connects.last().map(|c| c.0).unwrap_or(0);
+                    for st in &self.run.events[from..] {
                         if let Ev::Sent { side, msg: WMsg::Frame(RFrame::Reset { id: rid }), .. } = &st.ev {
                             if *rid == id && !(raw && *side == 1) {
                                 return Err(("c03-reset-held-flow".into(), format!("stream {i} (flow {id:08x}) was reset by side {side} although both applications still hold it")));
